@@ -6,6 +6,7 @@ package main
 
 import (
 	"bytes"
+	"encoding/json"
 	"flag"
 	"fmt"
 	"go/ast"
@@ -97,6 +98,7 @@ func writeIfChanged(path string, content string) error {
 func main() {
 	repo := flag.String("repo", "/repo", "repository working tree")
 	out := flag.String("out", "/verif/lean/WS/Gen", "output directory for generated Lean files")
+	jsonOut := flag.String("json", "", "also write the ordered skeleton as JSON to this file (for diagnostics and for bin/skeleton-snapshot)")
 	flag.Parse()
 	p, err := load(*repo)
 	if err != nil {
@@ -111,6 +113,13 @@ func main() {
 		{"Facts.lean", genFacts},
 		{"IntFns.lean", genIntFns},
 		{"Skeleton.lean", genSkeleton},
+	}
+	if *jsonOut != "" {
+		b, _ := json.MarshalIndent(genSkeletonOrdered(p), "", " ")
+		if err := os.WriteFile(*jsonOut, append(b, '\n'), 0o644); err != nil {
+			fmt.Fprintln(os.Stderr, "extract: write json:", err)
+			os.Exit(2)
+		}
 	}
 	for _, g := range gens {
 		s, err := g.fn(p)
